@@ -45,6 +45,10 @@ def logical_ops():
     ops["ctx_rel_bypass"] = mv("ctx_rel_bypass", (-3, 1, 2))
     ops["ctx_abs_nested"] = mv("ctx_abs_nested", (1, -2, 3))
     ops["ctx_rel_nested"] = mv("ctx_rel_nested", (3, 2, -1))
+    # an axis reset that names one axis only (to the value it already has: the toolpath itself is unchanged), and a move the builder
+    # refuses for its feed word (the caller catches the error and carries on): neither moves the tool
+    ops["g92-partial"] = lambda p, d: ("g92_partial", {}, tuple(p))
+    ops["refused-feed"] = lambda p, d: ("refused_feed", {}, tuple(p))
     ops["arc"] = shape(lambda p, d: c10.arc_case(p, d, 4.0, 90, None, 0))
     ops["arc-z"] = shape(lambda p, d: c10.arc_case(p, d, 3.0, 270, 2.0, 135))
     ops["arc_radius"] = shape(lambda p, d: c10.arc_radius_case(p, d, 5.0, 0.6, 30))
@@ -102,6 +106,17 @@ def apply(run, kind, largs, start):
             i = "xyz".index(largs["axis"])
             v = largs["target"][i]
             g.move(**{largs["axis"]: v if run.mode == "absolute" else v - start[i]})
+        elif kind == "g92_partial":
+            g.set_axis(z=start[2])
+        elif kind == "refused_feed":
+            for kw in ({"F": -1.0}, {"S": float("nan")}):
+                try:
+                    if run.mode == "absolute":
+                        g.move(x=start[0] + 7.0, y=start[1] - 3.0, **kw)
+                    else:
+                        g.move(x=7.0, y=-3.0, **kw)
+                except ValueError:
+                    pass
         elif kind == "rejected_bypass":
             for call in (g.move_absolute, g.rapid_absolute):
                 try:
@@ -238,7 +253,7 @@ def run(tier, seed):
         if opts.get("transform"):
             # bypass moves ignore the transform by contract: afterwards machine and builder no longer agree and the two
             # modes legitimately diverge, so they are left out under a transform
-            pool = [n for n in pool if "absolute" not in n and "bypass" not in n]
+            pool = [n for n in pool if "absolute" not in n and "bypass" not in n and "g92" not in n]
             first = [n for n in simple if "absolute" not in n]
         for h in itertools.product(first, pool):
             hists.append((STARTS[1], "clockwise", h, opts))
